@@ -1460,13 +1460,152 @@ def rule_nufraction(ctx):
     return res.finish(1)
 
 
+def rule_fixedcache(ctx):
+    """`gradient_fixed` caches sum_k C_k Q_k over the variables that sit *at* their upper bound; the gradient of the shrunk
+    variables is reconstructed from it.  The cache is right only if a variable's term is added when the variable is at the
+    bound after the step and taken out when it has left it.  Each `+=` / `-=` on the cache sits under tests of a
+    `reached_upper()` status; the status is dated (read before or after the assignment of the new alpha; through a flag
+    parameter: at the call site) and, together with the `old != new` test around it, gives the status *now*."""
+    from .taint import parent_map
+    res = RuleResult("R-C13-fixedcache", "a term is added to the cached gradient of the bounded variables (gradient_fixed) where the variable is at its upper bound after the step, and subtracted where it has left it")
+    F = ctx.facts()
+    fns = [f for f in F.all_fns() if f["d"]["krate"] == "linfa_svm" and not f.get("exp") and f.get("body") is not None]
+    n = 0
+
+    def is_upper_call(e):
+        e = peel_refs(e)
+        return e.get("k") == "MethodCall" and e["name"] == "reached_upper"
+
+    def alpha_writes(fn):
+        out = []
+        for y in walk(fn["body"]):
+            if y.get("k") == "Assign":
+                l = peel_refs(y["l"])
+                while l.get("k") == "Index":
+                    l = peel_refs(l["e"])
+                if self_field(l) == "alpha":
+                    out.append(y.get("ln") or 0)
+        return out
+
+    def dated(fn, e, at_ln, depth=0):
+        """-> list of (polarity_of_e_meaning_upper, when) with when in before/now, or None when not a status"""
+        e = peel_refs(e)
+        neg = False
+        while e.get("k") == "Unary" and e.get("op") == "!":
+            neg = not neg
+            e = peel_refs(e["e"])
+        if is_upper_call(e):
+            ln = e.get("ln") or 0
+            w = "before" if any(ln <= a <= at_ln for a in alpha_writes(fn)) and not any(a < ln for a in alpha_writes(fn)) else "now"
+            if any(ln <= a <= at_ln for a in alpha_writes(fn)) and any(a < ln for a in alpha_writes(fn)):
+                return None
+            return [(not neg, w)]
+        if e.get("k") == "Path" and "local" in e:
+            for y in walk(fn["body"]):
+                if y.get("k") == "LetStmt" and y.get("init") is not None and y["pat"].get("k") == "Bind" and y["pat"]["local"] == e["local"]:
+                    r = dated(fn, y["init"], at_ln, depth)
+                    if r is None:
+                        return None
+                    return [((p_ if not neg else not p_), w) for p_, w in r]
+            # a parameter: dated at every call site
+            idx = None
+            k = 0
+            for p_ in fn["params"]:
+                bs = list(pat_bindings(p_))
+                if len(bs) == 1 and bs[0]["local"] == e["local"]:
+                    idx = k
+                k += 1
+            if idx is None or depth >= 2:
+                return None
+            out = []
+            has_self = any(b.get("name") == "self" for p_ in fn["params"] for b in pat_bindings(p_))
+            for g in fns:
+                for y in walk(g["body"]):
+                    if y.get("k") in ("MethodCall", "Call") and fn["def"] in (y.get("def"), y.get("inst")) or (y.get("k") == "Call" and peel_refs(y["f"]).get("k") == "Path" and fn["def"] in (peel_refs(y["f"]).get("def"), peel_refs(y["f"]).get("inst"))):
+                        args = ([y["recv"]] + list(y["args"])) if y.get("k") == "MethodCall" else list(y["args"])
+                        if idx >= len(args):
+                            return None
+                        sub = dated(g, args[idx], y.get("ln") or 0, depth + 1)
+                        if sub is None:
+                            return None
+                        # the condition around the call site (old != new) belongs to the site
+                        out += [((p_ if not neg else not p_), w, g, y) for p_, w in sub]
+            return out or None
+        return None
+
+    def changed_test(fn, node, pm):
+        """the site sits under `flag != x.reached_upper()` (the status has changed)"""
+        a = pm.get(id(node))
+        while a is not None:
+            if a.get("k") == "If":
+                c_ = peel_refs(a["c"])
+                if c_.get("k") == "Binary" and c_["op"] in ("!=", "^"):
+                    return True
+            a = pm.get(id(a))
+        return False
+
+    for fn in fns:
+        sites = []
+        for y in walk(fn["body"]):
+            if y.get("k") == "AssignOp" and y["op"] in ("+", "-", "+=", "-="):
+                l = peel_refs(y["l"])
+                while l.get("k") == "Index":
+                    l = peel_refs(l["e"])
+                if self_field(l) == "gradient_fixed" or (l.get("k") == "Path" and l.get("name") == "gradient_fixed"):
+                    sites.append(y)
+        if not sites:
+            continue
+        pm = parent_map(fn["body"])
+        key = fn_key(fn)
+        for y in sites:
+            n += 1
+            plus = y["op"].startswith("+")
+            inst = "%s : gradient_fixed %s= #%d" % (key, "+" if plus else "-", n)
+            res.instance(inst)
+            # status tests around the site
+            verdicts = []
+            child, a = y, pm.get(id(y))
+            unknown = False
+            while a is not None:
+                if a.get("k") == "If" and child is not a.get("c"):
+                    pol = child is a.get("then")
+                    c_ = peel_refs(a["c"])
+                    if not (c_.get("k") == "Binary" and c_["op"] in ("!=", "^")):
+                        r = dated(fn, a["c"], y.get("ln") or 0)
+                        if r is not None:
+                            for t in r:
+                                means_upper = t[0] if pol else not t[0]
+                                if len(t) == 4:
+                                    ch = changed_test(t[2], t[3], parent_map(t[2]["body"]))
+                                else:
+                                    ch = changed_test(fn, y, pm)
+                                if t[1] == "now":
+                                    verdicts.append(means_upper)
+                                elif ch:
+                                    verdicts.append(not means_upper)
+                                else:
+                                    unknown = True
+                child, a = a, pm.get(id(a))
+            if not verdicts or unknown:
+                res.undecided("%s : status-not-dated" % key, "the update of gradient_fixed is not governed by a reached_upper() status this rule can date", fn_loc(fn, y.get("ln")))
+                continue
+            bad = [v for v in verdicts if v != plus]
+            if bad:
+                res.violate("%s : sign-against-status" % key, "gradient_fixed is %s by the variable's term where the variable %s: the cache no longer holds the sum over the variables at their bound, the gradient reconstructed from it for shrunk variables is wrong and the returned point violates the KKT conditions when shrinking is enabled" % ("increased" if plus else "decreased", "has left its upper bound" if plus else "has just reached its upper bound"), fn_loc(fn, y.get("ln")))
+            else:
+                res.ok()
+    if n < 3:
+        res.missing_anchor("updates of gradient_fixed in linfa-svm (one in the constructor and an add / subtract pair in update at least; found %d)" % n)
+    return res.finish(3)
+
+
 def rules(tier):
     from . import carry, c04
     from . import precision
     from . import inplace, blockmean
     return [blockmean.make_tile_rule("R-C13-tiles", lambda f: f["d"]["krate"] in ("linfa_svm", "linfa_kernel"), "linfa-svm and linfa-kernel (kernel matrix construction)"),
             inplace.make_rule("R-C13-overwrite", lambda f: f["d"]["krate"] == "linfa_svm", 2, "the support vector machines"),
-            rule_precombine, rule_permute, rule_nufraction, rule_nusetup, rule_reselect, rule_islinear, rule_decision, rule_swap, rule_bound, rule_space, rule_sv, rule_sib, rule_snapshot, rule_rho, rule_rescale, rule_memorder, rule_extent, rule_kernel,
+            rule_precombine, rule_permute, rule_fixedcache, rule_nufraction, rule_nusetup, rule_reselect, rule_islinear, rule_decision, rule_swap, rule_bound, rule_space, rule_sv, rule_sib, rule_snapshot, rule_rho, rule_rescale, rule_memorder, rule_extent, rule_kernel,
             carry.make_clone_rule("R-C13-clone", {"linfa_svm", "linfa_kernel"}, 6), carry.make_setter_rule("R-C13-override", {"linfa_svm"}, 6), c04.make_carry_rule("R-C13-carry", {"SvmParams"}, 6),
             precision.make_rule("R-C13-precision", lambda f: f["d"]["krate"] in ("linfa_svm", "linfa_kernel"), 100, "linfa-svm and linfa-kernel"),
             carry.make_accessor_rule("R-C13-accessor", {"linfa_svm", "linfa_kernel"}, 3), carry.make_ctor_rule("R-C13-ctor", {"linfa_svm", "linfa_kernel"}, 3)]
